@@ -283,6 +283,9 @@ func runPR(c *Ctx, s *Sink) {
 				return true
 			}
 			fmU, rmU := mentions(as.Rhs[0])
+			if (as.Tok == token.ADD_ASSIGN || as.Tok == token.SUB_ASSIGN) && !fmU && !rmU {
+				return true // an adjustment by an amount that reads neither match (turns * seq.Len())
+			}
 			judge(as.Pos(), which, fmU, rmU)
 			return true
 		})
